@@ -182,7 +182,10 @@ SeekOK ==
         /\ (last.s.err => t < 0 \/ t > Len(D))                          \* a seek inside the data succeeds
         /\ (~last.s.err => t >= 0 /\ last.s.pos = t)
 EndIsLen == WellFormed(term) => End(term) = Len(D)
+\* the judgement of a call is made on the transition that makes it (the call record is not part of the VIEW)
+View == <<term, pos>>
+StepOK == [][ReadOK' /\ FullOK' /\ SeekOK']_vars
 \* witnesses, expected to be VIOLATED when the switch is on (the model reaches the out-of-contract corner):
-OverlongTerminates == (last.op = "full" /\ last.off >= 0) => ~last.r.hang
-NegOffProgress == (last.op = "full") => ~last.r.hang
+OverlongTerminates == [][(last.op = "full" /\ last.off >= 0 => ~last.r.hang)']_vars
+NegOffProgress == [][(last.op = "full" => ~last.r.hang)']_vars
 =============================================================================
